@@ -518,3 +518,78 @@ func Reaches(a, b ssa.Instruction) bool {
 	}
 	return false
 }
+
+// ExpandGetter reads a call to a side-effect-free helper of the module as the expression it returns: the callee has a single
+// returning path, stores nothing, sends nothing, spawns nothing and calls nothing of the module (lock operations and standard-library
+// calls are allowed), so its result is the rendered return expression with the parameters replaced by the arguments.
+func ExpandGetter(v ssa.Value, modPrefix string) (string, bool) {
+	call, ok := v.(*ssa.Call)
+	if !ok {
+		return "", false
+	}
+	cal := StaticCallee(&call.Call)
+	if cal == nil || cal.Pkg == nil || len(cal.Blocks) == 0 || !strings.HasPrefix(cal.Pkg.Pkg.Path(), modPrefix) {
+		return "", false
+	}
+	pure := true
+	AllInstrs(cal, func(in ssa.Instruction) {
+		switch x := in.(type) {
+		case *ssa.Store:
+			// stores to local cells (spilled results, named variables) are allowed
+			if _, local := x.Addr.(*ssa.Alloc); !local {
+				pure = false
+			}
+		case *ssa.MapUpdate, *ssa.Send, *ssa.Go, *ssa.Select:
+			pure = false
+		case *ssa.Call, *ssa.Defer:
+			cc := CallOf(in)
+			if _, _, isLock := lockOp(cc); isLock {
+				return
+			}
+			if cc.IsInvoke() {
+				pure = false
+				return
+			}
+			if c2 := StaticCallee(cc); c2 == nil || c2.Pkg == nil || strings.HasPrefix(c2.Pkg.Pkg.Path(), modPrefix) {
+				if _, isBuiltin := cc.Value.(*ssa.Builtin); !isBuiltin {
+					pure = false
+				}
+			}
+		}
+	})
+	if !pure {
+		return "", false
+	}
+	paths, _ := EnumPaths(cal, 16)
+	var ret *Path
+	for _, p := range paths {
+		if p.Return != nil {
+			if ret != nil {
+				return "", false
+			}
+			ret = p
+		}
+	}
+	if ret == nil || len(ret.ResVals) != 1 {
+		return "", false
+	}
+	sub := map[ssa.Value]ssa.Value{}
+	for i, p := range cal.Params {
+		if i < len(call.Call.Args) {
+			sub[p] = call.Call.Args[i]
+		}
+	}
+	return renderWith(ret.ResVals[0], func(x ssa.Value) ssa.Value {
+		for i := 0; i < 6; i++ {
+			y := resolvePhi(spillOnPath(x, ret.Blocks), ret.Blocks)
+			if a, ok := sub[y]; ok {
+				y = a
+			}
+			if y == x {
+				break
+			}
+			x = y
+		}
+		return x
+	}), true
+}
